@@ -131,6 +131,34 @@ func genC17(t *rapid.T) CaseC17 {
 	c.Pred = rapid.SampledFrom([]string{"done-at", "done-at", "err-at", "never", "always", "done-and-err-at", "err-once-at", "err-sentinel-once-at", "err-wrapped-sentinel-once-at",
 		"done-first-byte", "err-first-byte", "done-last-byte", "done-first-byte"}).Draw(t, "pred")
 	c.K = rapid.SampledFrom([]int{0, 1, 10, 184, 185, 300, 368, 500, 1000}).Draw(t, "k")
+	if rapid.IntRange(0, 7).Draw(t, "packed-sections") == 0 {
+		// a packed PSI stream: section A (pointer_field 0) runs over several packets, and its last m bytes sit in front of the
+		// next section in a packet that is itself a unit start (pointer_field m). The accumulator is payload-agnostic: that
+		// packet discards what came before, whatever the bytes look like. The threshold is the size of the complete section A.
+		l := rapid.IntRange(190, 600).Draw(t, "section-length")
+		for (1+3+l)%184 == 0 {
+			l++
+		}
+		a := append([]byte{rapid.SampledFrom([]byte{0x02, 0x00, 0xFC, 0x42}).Draw(t, "table-id"), 0xB0 | byte(l>>8), byte(l)}, genBytes(t, l, l, "section-body")...)
+		stream := append([]byte{0x00}, a...)
+		c.Pred, c.K = rapid.SampledFrom([]string{"done-at", "done-at", "never", "err-at"}).Draw(t, "packed-pred"), len(stream)
+		cc := rapid.IntRange(0, 15).Draw(t, "cc")
+		mk := func(pusi bool, payload []byte) OpC17 {
+			p := &ref.Packet{Sync: 0x47, PID: 0x100, PUSI: pusi, AFC: 1, CC: cc & 15, Payload: payload}
+			cc++
+			b := p.MustBytes()
+			return OpC17{Kind: "write", Pkt: clone(b[:])}
+		}
+		for off := 0; off+184 <= len(stream); off += 184 {
+			c.Ops = append(c.Ops, mk(off == 0, clone(stream[off:off+184])))
+		}
+		m := len(stream) % 184
+		last := append([]byte{byte(m)}, stream[len(stream)-m:]...)
+		last = append(last, 0x02, 0xB0, 0x2D)
+		last = append(last, genBytes(t, 184, 184, "next-section")...)
+		c.Ops = append(c.Ops, mk(true, clone(last[:184])), OpC17{Kind: "bytes"}, OpC17{Kind: "packets"})
+		return c
+	}
 	n := rapid.IntRange(1, 30).Draw(t, "steps")
 	for i := 0; i < n; i++ {
 		switch rapid.IntRange(0, 9).Draw(t, "opk") {
@@ -466,7 +494,7 @@ func isSubseq(small, big [][]byte) bool {
 var propC17 = hx.Register(hx.Prop[CaseC17]{ID: "C17", Gen: genC17, Check: checkC17})
 
 func c17Rule() {
-	hx.Rec("C17").SetRule("cases: histories of 1..30 calls (WritePacket with a generated well-formed packet: PUSI on/off, payload-less, af_len 0, short payload behind stuffing, full payload, or the previous packet again byte for byte; Bytes; Packets; Reset) on one accumulator with a drawn predicate (done when >= k bytes, error when >= k bytes, done and error at once when >= k bytes, error exactly once (own error, the library's completion sentinel, or a wrapper of it) and not done afterwards, never, always, and predicates that look at the content: done / error when the first byte, done when the last byte is >= byte(k); k from {0,1,10,184,185,300,368,500,1000}). Oracle: a three-state reference model (starting/accumulating/done, byte buffer, packet list); after EVERY call Bytes() and Packets() are compared with the model, returned slices and the packets they point to are scribbled on and the caller's packet is modified to detect aliasing, and after a Reset a fresh accumulator is driven in lockstep (differential); a second accumulator is fed other packets between the steps, Reset at the same moments, and checked as well. Non-trivial: the history contains a second unit start, a write after completion, a predicate error, or a Reset.",
+	hx.Rec("C17").SetRule("cases: histories of 1..30 calls (WritePacket with a generated well-formed packet: PUSI on/off, payload-less, af_len 0, short payload behind stuffing, full payload, or the previous packet again byte for byte; Bytes; Packets; Reset) on one accumulator (one history in eight is a packed PSI stream: a section over several packets whose tail sits in front of the next section in a packet that is itself a unit start) with a drawn predicate (done when >= k bytes, error when >= k bytes, done and error at once when >= k bytes, error exactly once (own error, the library's completion sentinel, or a wrapper of it) and not done afterwards, never, always, and predicates that look at the content: done / error when the first byte, done when the last byte is >= byte(k); k from {0,1,10,184,185,300,368,500,1000}). Oracle: a three-state reference model (starting/accumulating/done, byte buffer, packet list); after EVERY call Bytes() and Packets() are compared with the model, returned slices and the packets they point to are scribbled on and the caller's packet is modified to detect aliasing, and after a Reset a fresh accumulator is driven in lockstep (differential); a second accumulator is fed other packets between the steps, Reset at the same moments, and checked as well. Non-trivial: the history contains a second unit start, a write after completion, a predicate error, or a Reset.",
 		"Packets() is compared by content with the packets accepted since the last unit start (a packet refused with an error is not one of them)",
 		"only well-formed packets are written (malformed ones are C05's business)")
 }
